@@ -443,6 +443,51 @@ def rule_answer_check(ctx: Ctx, rep: Report) -> None:
         rep.ob(rule, "request_signatures:args", ok2, rs.where(), "assert_signatures_only(request, what the signer returned)")
 
 
+def rule_new_sigs_verified(ctx: Ctx, rep: Report) -> None:
+    """C11.new_sigs_verified: in the answer check, a signature is skipped only
+    because *that key's* signature was already in the request -- never
+    wholesale."""
+    rule = "C11.new_sigs_verified"
+    for q in (f"{P}._assert_ecdsa_sigs_verify", f"{P}._assert_taproot_sigs_verify"):
+        fi = ctx.func(q)
+        loops = [n for n in own_nodes(fi.node) if isinstance(n, ast.For) and any(isinstance(c, ast.Call) and call_name(c) == "verify_" for s in n.body for c in ast.walk(s))]
+        if not loops:
+            raise AnalysisError(f"{q}: verification loop vanished")
+        for lp in loops:
+            it = lp.iter
+            if not (isinstance(it, ast.Call) and isinstance(it.func, ast.Attribute) and it.func.attr == "items"):
+                rep.unknown(rule, f"{fi.name}:loop", fi.where(lp), f"loop over {norm(it)}")
+                continue
+            keyvars = {x.id for x in ast.walk(lp.target.elts[0] if isinstance(lp.target, ast.Tuple) else lp.target) if isinstance(x, ast.Name)}
+            src = it.func.value
+            key = f"{fi.name}:{norm(src)}"
+            if isinstance(src, ast.Attribute):
+                # the whole map; skips inside the loop must be per key
+                conts = [n for n in ast.walk(lp) if isinstance(n, ast.If) and any(isinstance(s, ast.Continue) for s in n.body)]
+                bad = [norm(c.test) for c in conts if not (keyvars & {x.id for x in ast.walk(c.test) if isinstance(x, ast.Name)}) and "msg_hash" not in norm(c.test)]
+                rep.ob(rule, key, not bad, fi.where(lp), "iterates the whole map; a signature is skipped only when its own key is in the request" if not bad else f"a skip that does not depend on the signature's key: {bad}")
+            elif isinstance(src, ast.Name):
+                defs = [n for n in own_nodes(fi.node) if isinstance(n, (ast.Assign, ast.AnnAssign)) and norm(n.targets[0] if isinstance(n, ast.Assign) else n.target) == src.id]
+                ok = bool(defs)
+                why = "defined once as a per-key filter of the whole map"
+                for d in defs:
+                    v = d.value
+                    if not (isinstance(v, ast.DictComp) and isinstance(v.generators[0].iter, ast.Call) and norm(v.generators[0].iter.func).endswith(".items")
+                            and isinstance(v.generators[0].iter.func.value, ast.Attribute)):
+                        ok = False
+                        why = f"`{norm(d)[:70]}`: the set of signatures to verify is not a per-key filter of the input's map"
+                        continue
+                    kv = {x.id for x in ast.walk(v.generators[0].target) if isinstance(x, ast.Name)}
+                    for cond in v.generators[0].ifs:
+                        for disj in (cond.values if isinstance(cond, ast.BoolOp) and isinstance(cond.op, ast.Or) else [cond]):
+                            names = {x.id for x in ast.walk(disj) if isinstance(x, ast.Name)}
+                            if not (names & kv) and norm(disj) != "request_in is None":
+                                ok = False
+                                why = f"filter condition `{norm(disj)}` does not depend on the signature's key"
+                rep.ob(rule, key, ok, fi.where(lp), why)
+    rep.floor(rule, 2)
+
+
 def _through_loop(g, call: ast.Call) -> list[int]:
     ids = list(g.nodes_containing(call))
     st = parent(call)
@@ -479,6 +524,7 @@ RULES = [
     ("C11.fresh", rule_fresh),
     ("C11.tx_untouched", rule_tx_untouched),
     ("C11.answer_check", rule_answer_check),
+    ("C11.new_sigs_verified", rule_new_sigs_verified),
     ("C11.view", rule_view),
 ]
 
@@ -498,6 +544,8 @@ CONTROLS = [
      "edit": lambda ctx: M.sub_module_expr(ctx, P, lambda n: isinstance(n, ast.Constant) and n.value == "sequence" and isinstance(parent(n), ast.Set), '"sig_hash_type"')},
     {"rule": "C11.answer_check", "name": "answer check no longer verifies ecdsa signatures", "module": P,
      "edit": lambda ctx: M.drop_call_stmt(ctx, f"{P}.assert_signatures_only", "_assert_ecdsa_sigs_verify")},
+    {"rule": "C11.new_sigs_verified", "name": "ecdsa signatures skipped wholesale when the request has any", "module": P,
+     "edit": lambda ctx: M.sub_expr(ctx, f"{P}._assert_ecdsa_sigs_verify", M.is_text("request_in is not None and pub_key in request_in.partial_sigs"), "request_in is not None and request_in.partial_sigs")},
     {"rule": "C11.answer_check", "name": "global unknown no longer compared", "module": P,
      "edit": lambda ctx: M.drop_if(ctx, f"{P}.assert_signatures_only", lambda n: "returned.unknown" in norm(n.test))},
 ]
